@@ -274,20 +274,55 @@ def minkowski_rules(db, chk, cfg, rule="MINK"):
                                                         "(last,first) is included iff isClosed", "cfg": cfg}, ok=ok)
     if not ok:
         chk.violation(rule + ".closing-edge", f.qual, "isClosed", "the range of path edges swept (closing edge only when isClosed) changed", f.where, cfg=cfg)
-    # (d) every quad is made positively oriented before it is stored
-    ok = "if ((!IsPositive(quad))) reverse(quad.begin(), quad.end())" in txt and \
-        txt.index("if ((!IsPositive(quad)))") < txt.index("result.emplace_back(move(quad))")
+    # (d) every quad is made positively oriented before it is stored: the statement that reverses the quad runs exactly when the quad is
+    # negative (condition interpreted with IsPositive / Area answered for both orientations) and precedes the append to the result
+    rev_sites = []
+    for x in walk(f.body):
+        if x.get("kind") == "IfStmt":
+            cond, then, els = if_parts(x)
+            if els is None and any(y.get("kind") == "CallExpr" and db.callee(y)[0] == "reverse" for y in walk(then)):
+                rev_sites.append((x, cond))
+    ok = False
+    if len(rev_sites) == 1:
+        node, cond = rev_sites[0]
+        ok = True
+        for positive in (False, True):
+            def hook(name, argv, nd, positive=positive):
+                if name == "IsPositive":
+                    return positive
+                if name == "Area":
+                    return 1.0 if positive else -1.0
+                return NotImplemented
+            try:
+                if bool(Interp(db, {}, call_hook=hook).ev(cond)) != (not positive):
+                    ok = False
+            except Unsupported:
+                ok = False
+        # order: the reversal precedes the append of the quad to the result
+        order = [y for y in walk(f.body) if y is node or (y.get("kind") == "CXXMemberCallExpr" and db.callee(y)[0] in ("emplace_back", "push_back")
+                                                         and canon(db.member_base(y)) == "result")]
+        if not order or order[0] is not node:
+            ok = False
     n += 1
-    chk.instance(rule + ".orientation", {"obligation": "each quad is reversed if not positive before being added", "cfg": cfg}, ok=ok)
+    chk.instance(rule + ".orientation", {"obligation": "each quad is reversed iff it is negative, before being added", "cfg": cfg}, ok=ok)
     if not ok:
         chk.violation(rule + ".orientation", f.qual, "quad", "quads are no longer normalised to positive orientation before the union: quads of opposite "
                       "orientation cancel under NonZero filling", f.where, cfg=cfg)
-    # (e) quad corners: (g,h) (i,h) (i,j) (g,j)
-    ok = "quad.emplace_back(tmp[g][h]); quad.emplace_back(tmp[i][h]); quad.emplace_back(tmp[i][j]); quad.emplace_back(tmp[g][j])" in txt and "(h = j)" in txt
+    # (e) quad corners: (g,h) (i,h) (i,j) (g,j) in cyclic order (any rotation, either direction: orientation is normalised afterwards)
+    corners = []
+    for y in walk(f.body):
+        if y.get("kind") == "CXXMemberCallExpr" and db.callee(y)[0] in ("emplace_back", "push_back") and canon(db.member_base(y)) == "quad":
+            m = re.match(r"^tmp\[(\w+)\]\[(\w+)\]$", canon(db.call_args(y)[0]).strip("()"))
+            corners.append((m.group(1), m.group(2)) if m else None)
+    base = [("g", "h"), ("i", "h"), ("i", "j"), ("g", "j")]
+    rots = [base[k:] + base[:k] for k in range(4)]
+    rots += [list(reversed(r)) for r in rots]
+    txt = canon(f.body)
+    ok = corners in rots and "(h = j)" in txt.replace("h = j", "(h = j)").replace("((h = j))", "(h = j)")
     n += 1
-    chk.instance(rule + ".quad", {"obligation": "quad = (g,h) (i,h) (i,j) (g,j), then h = j", "cfg": cfg}, ok=ok)
+    chk.instance(rule + ".quad", {"obligation": "quad = (g,h) (i,h) (i,j) (g,j) up to rotation/reversal, then h = j", "corners": corners, "cfg": cfg}, ok=ok)
     if not ok:
-        chk.violation(rule + ".quad", f.qual, "corners", "the four corners of the swept parallelogram changed", f.where, cfg=cfg)
+        chk.violation(rule + ".quad", f.qual, "corners", "the four corners of the swept parallelogram changed: %s" % (corners,), f.where, cfg=cfg)
     # (f) all four public functions union with NonZero and pass the right isSum flag
     for q, want_sum in (("MinkowskiSum", "true"), ("MinkowskiDiff", "false")):
         for fn in db.find(q):
